@@ -19,6 +19,8 @@ LEVEL = "exploration"
 QUICK_SHARDS = 4
 MIN_NONTRIVIAL = 50
 RULE = (
+    "Lattices of 45-75 copies of one template unit (262-300 atoms, so that "
+    "atom indices exceed 256) under the same motions and permutations. "
     "Geometries from (a) idealised tetrahedral / square-planar / "
     "trigonal-bipyramidal / octahedral / planar X2C=CY2 templates with "
     "per-ligand bond lengths from the radii, distinct or repeated ligand "
@@ -163,6 +165,18 @@ def base_geometries(case):
                 for p in case["paths"]]
     if k == "raw":
         return [(case["elements"], [tuple(c) for c in case["coords"]])]
+    if k == "grid":
+        # many copies of one template unit on a lattice: atom indices far
+        # beyond 256 (index arithmetic, identity vs. equality of indices)
+        els, cs = template_geometry(case["unit"])
+        E, C = [], []
+        side = 1 + int(math.isqrt(case["copies"]))
+        for q in range(case["copies"]):
+            off = (case["spacing"] * (q % side), case["spacing"] * (q // side),
+                   3.0 * (q % 3))
+            E += list(els)
+            C += [G.add(c, off) for c in cs]
+        return [(E, C)]
     if k == "smiles":
         from rdkit import Chem
         from rdkit.Chem import AllChem
@@ -707,6 +721,27 @@ def gen_seesaw(tp):
             "mirror": tp.chance(90), "shape": "see-saw"}
 
 
+def gen_grid(data: bytes):
+    tp = S.Tape(data)
+    want = tp.pick(["PlanarBond", "PlanarBond", "Tetrahedral",
+                    "SquarePlanar"])
+    unit = gen_template(tp)
+    for _ in range(40):
+        if unit["cls"] == want:
+            break
+        unit = gen_template(tp)
+    if unit["cls"] not in ("PlanarBond", "Tetrahedral", "SquarePlanar"):
+        unit = gen_template(S.Tape(b""))        # the simplest unit
+    unit["extra"] = []
+    nat = len(unit["noise"])
+    unit["order"] = tp.shuffle(range(nat))
+    copies = -(-(262 + tp.below(40)) // nat)
+    n = copies * nat
+    return {"kind": "grid", "unit": unit, "copies": copies, "spacing": 25.0,
+            "perm": tp.shuffle(range(n)), "motions": [_motion(tp)],
+            "mirror": tp.chance(90)}
+
+
 def gen(data: bytes):
     tp = S.Tape(data)
     k = tp.weighted([3, 2, 6, 1])
@@ -723,7 +758,8 @@ def gen(data: bytes):
 
 def shrink(case):
     n = len(case.get("perm", []))
-    if case["kind"] in ("template", "file", "triple", "smiles", "raw"):
+    if case["kind"] in ("template", "file", "triple", "smiles", "raw",
+                        "grid"):
         ident = list(range(n))
         if case["perm"] != ident:
             yield {**case, "perm": ident}
@@ -764,6 +800,8 @@ def run(ctx):
         ctx.note(case, res["nontrivial"], labs)
 
     ctx.hyp("c07", S.mapped(800, gen), check, ctx.scale(10000, 200000),
+            shrinker=shrink)
+    ctx.hyp("c07-grid", S.mapped(1200, gen_grid), check, ctx.scale(16, 320),
             shrinker=shrink)
 
     # ---- placements: exhaustive for each class with distinct ligands
